@@ -1,12 +1,505 @@
 package interp
 
-// Tier C cooperative scheduler (placeholder until the 2-thread harnesses are built).
+// Tier C: cooperative scheduler for the 2–3 thread harnesses.  Threads
+// are real goroutines passing a baton, so exactly one of them executes
+// interpreter code at any time.  Scheduling points: every mutex
+// acquisition, time.Sleep, thread start and end.  The choice among
+// runnable threads is one more decision kind of the explorer, bounded by
+// a preemption budget (CHESS-style).  A vector-clock happens-before
+// detector watches every load, store and map access.
 
-type scheduler struct{}
+import (
+	"fmt"
+	"go/token"
+	"sort"
+	"strings"
+	"sync"
+
+	"golang.org/x/tools/go/ssa"
+)
+
+type vclock []int
+
+func (a vclock) join(b vclock) {
+	for k := range b {
+		if b[k] > a[k] {
+			a[k] = b[k]
+		}
+	}
+}
+
+type thread struct {
+	id        int
+	fn        value
+	resume    chan bool
+	started   bool
+	done      bool
+	blockedOn *lockState
+	wantWrite bool
+	pending   bool // counted in blockedOn.pendW
+	vc        vclock
+}
+
+type accessRec struct {
+	thread int
+	epoch  int
+	where  string
+}
+
+type cellState struct {
+	lastWrite *accessRec
+	reads     map[int]*accessRec
+}
+
+type raceInfo struct {
+	a, b  string
+	kindA string
+	kindB string
+}
+
+type scheduler struct {
+	i           *interpreter
+	threads     []*thread
+	cur         int
+	mainCh      chan struct{}
+	preemptions int
+	maxPreempt  int
+	abort       interface{}
+	deadlock    string
+	cells       map[interface{}]*cellState
+	races       []raceInfo
+	raceKeys    map[string]bool
+	wvc         map[*lockState]vclock
+	rvc         map[*lockState]vclock
+	switches    int
+	wg          sync.WaitGroup
+}
+
+func (s *scheduler) curT() *thread { return s.threads[s.cur] }
+
+func canAcquire(l *lockState, t int, write bool) bool {
+	if write {
+		return l.writer == -1 && l.totalReaders() == 0
+	}
+	// writer preference: a pending Lock blocks new readers
+	return l.writer == -1 && l.pendW == 0
+}
+
+func (s *scheduler) runnable(t *thread) bool {
+	if t.done {
+		return false
+	}
+	if t.blockedOn != nil {
+		return canAcquire(t.blockedOn, t.id, t.wantWrite)
+	}
+	return true
+}
+
+func (s *scheduler) candidates() []*thread {
+	var c []*thread
+	// the current thread first, so that choice 0 means "no switch"
+	if t := s.curT(); s.runnable(t) {
+		c = append(c, t)
+	}
+	for _, t := range s.threads {
+		if t != s.curT() && s.runnable(t) {
+			c = append(c, t)
+		}
+	}
+	return c
+}
+
+// transfer hands the baton to next and parks the calling thread (if it
+// is still alive).
+func (s *scheduler) transfer(from *thread, next *thread, park bool) {
+	s.cur = next.id
+	s.i.env.curThread = next.id
+	s.switches++
+	next.resume <- true
+	if park {
+		if ok := <-from.resume; !ok {
+			panic(stopSpawn{})
+		}
+		s.cur = from.id
+		s.i.env.curThread = from.id
+	}
+}
+
+func (s *scheduler) describeBlocked() string {
+	var parts []string
+	for _, t := range s.threads {
+		if t.done {
+			continue
+		}
+		if t.blockedOn != nil {
+			m := "RLock"
+			if t.wantWrite {
+				m = "Lock"
+			}
+			parts = append(parts, fmt.Sprintf("thread %d waits for %s of %s (writer=%d readers=%d pendingWriters=%d)",
+				t.id, m, t.blockedOn.name, t.blockedOn.writer, t.blockedOn.totalReaders(), t.blockedOn.pendW))
+		} else {
+			parts = append(parts, fmt.Sprintf("thread %d runnable", t.id))
+		}
+	}
+	return strings.Join(parts, "; ")
+}
+
+// schedule is a scheduling point of the running thread t.
+func (s *scheduler) schedule(t *thread) {
+	for {
+		c := s.candidates()
+		if len(c) == 0 {
+			s.deadlock = s.describeBlocked()
+			panic(pathEnd{"deadlock", s.deadlock})
+		}
+		pick := 0
+		if len(c) > 1 {
+			if c[0] == t && s.preemptions >= s.maxPreempt {
+				pick = 0
+			} else {
+				pick = s.i.path.choose(len(c), "sched")
+				if c[0] == t && pick != 0 {
+					s.preemptions++
+				}
+			}
+		}
+		if c[pick] == t {
+			return
+		}
+		s.transfer(t, c[pick], true)
+		if s.runnable(t) {
+			return
+		}
+	}
+}
+
+func (s *scheduler) yield(i *interpreter, why string) {
+	s.schedule(s.curT())
+}
+
+func (s *scheduler) lockVC(m map[*lockState]vclock, l *lockState) vclock {
+	v := m[l]
+	if v == nil {
+		v = make(vclock, len(s.threads)+1)
+		m[l] = v
+	}
+	return v
+}
 
 func (s *scheduler) lockOp(i *interpreter, l *lockState, write, acquire bool, where string) value {
-	unsupportedf("scheduler not built")
+	t := s.curT()
+	id := t.id
+	if !acquire {
+		if write {
+			if l.writer != id {
+				panic(targetPanic{iface{t: nil, v: "fatal error: sync: Unlock of unlocked RWMutex"}})
+			}
+			l.writer = -1
+			w := s.lockVC(s.wvc, l)
+			w.join(t.vc)
+		} else {
+			if l.readers[id] == 0 {
+				panic(targetPanic{iface{t: nil, v: "fatal error: sync: RUnlock of unlocked RWMutex"}})
+			}
+			l.readers[id]--
+			r := s.lockVC(s.rvc, l)
+			r.join(t.vc)
+		}
+		t.vc[id]++
+		return nil
+	}
+	// scheduling point before the acquisition
+	s.schedule(t)
+	if write && (l.writer == id || l.readers[id] > 0) {
+		i.env.lockEvents = append(i.env.lockEvents, lockEvent{"self-deadlock", "Lock of " + l.name + " in " + where + " while held by the same goroutine"})
+		s.deadlock = "thread " + fmt.Sprint(id) + " re-acquires " + l.name + " in " + where
+		panic(pathEnd{"deadlock", s.deadlock})
+	}
+	if !write && l.readers[id] > 0 {
+		i.env.lockEvents = append(i.env.lockEvents, lockEvent{"recursive-rlock", "RLock of " + l.name + " in " + where + " while already read-locked by the same goroutine"})
+	}
+	for !canAcquire(l, id, write) {
+		t.blockedOn, t.wantWrite = l, write
+		if write && !t.pending {
+			t.pending = true
+			l.pendW++
+		}
+		s.schedule(t)
+	}
+	if t.pending {
+		t.pending = false
+		l.pendW--
+	}
+	t.blockedOn = nil
+	if write {
+		l.writer = id
+		t.vc.join(s.lockVC(s.wvc, l))
+		t.vc.join(s.lockVC(s.rvc, l))
+	} else {
+		l.readers[id]++
+		t.vc.join(s.lockVC(s.wvc, l))
+	}
 	return nil
 }
 
-func (s *scheduler) yield(i *interpreter, why string) {}
+// access records one memory access of the running thread and checks it
+// against earlier accesses of other threads (happens-before).
+func (s *scheduler) access(cell interface{}, write bool, fr *frame, pos token.Pos) {
+	t := s.curT()
+	if !t.started {
+		return
+	}
+	cs := s.cells[cell]
+	if cs == nil {
+		cs = &cellState{reads: map[int]*accessRec{}}
+		s.cells[cell] = cs
+	}
+	where := ""
+	rec := func() *accessRec {
+		if where == "" {
+			where = fr.fn.String()
+			if p := s.i.prog.Fset.Position(pos); p.IsValid() {
+				where += fmt.Sprintf(" (%s:%d)", shortFile(p.Filename), p.Line)
+			}
+		}
+		return &accessRec{thread: t.id, epoch: t.vc[t.id], where: where}
+	}
+	ordered := func(a *accessRec) bool {
+		return a.thread == t.id || a.epoch <= t.vc[a.thread]
+	}
+	if w := cs.lastWrite; w != nil && !ordered(w) {
+		s.report(w, rec(), "write", map[bool]string{true: "write", false: "read"}[write])
+	}
+	if write {
+		for _, r := range cs.reads {
+			if !ordered(r) {
+				s.report(r, rec(), "read", "write")
+			}
+		}
+		cs.lastWrite = rec()
+		cs.reads = map[int]*accessRec{}
+	} else {
+		cs.reads[t.id] = rec()
+	}
+}
+
+func shortFile(p string) string {
+	if j := strings.LastIndex(p, "/"); j >= 0 {
+		return p[j+1:]
+	}
+	return p
+}
+
+func (s *scheduler) report(a, b *accessRec, ka, kb string) {
+	fa, fb := a.where, b.where
+	key := []string{fnOnly(fa), fnOnly(fb)}
+	sort.Strings(key)
+	k := strings.Join(key, "~")
+	if s.raceKeys[k] {
+		return
+	}
+	s.raceKeys[k] = true
+	s.races = append(s.races, raceInfo{a: fa, b: fb, kindA: ka, kindB: kb})
+}
+
+func fnOnly(w string) string {
+	if j := strings.Index(w, " ("); j >= 0 {
+		return w[:j]
+	}
+	return w
+}
+
+// cellsOf enumerates the leaf cells of the value stored at addr.
+func cellsOf(addr *value, f func(c *value)) {
+	if addr == nil {
+		return
+	}
+	switch v := (*addr).(type) {
+	case structure:
+		for k := range v {
+			cellsOf(&v[k], f)
+		}
+	case array:
+		for k := range v {
+			cellsOf(&v[k], f)
+		}
+	default:
+		f(addr)
+	}
+}
+
+func (i *interpreter) noteAccess(addr *value, write bool, fr *frame, pos token.Pos) {
+	s := i.env.sched
+	if s == nil || addr == nil {
+		return
+	}
+	cellsOf(addr, func(c *value) { s.access(c, write, fr, pos) })
+}
+
+func (i *interpreter) noteMapAccess(m value, write bool, fr *frame, pos token.Pos) {
+	s := i.env.sched
+	if s == nil {
+		return
+	}
+	if om, ok := m.(*omap); ok && om != nil {
+		s.access(om, write, fr, pos)
+	}
+}
+
+// runPar runs the closures as concurrent threads and returns when all
+// have finished (or the path ends).
+func (i *interpreter) runPar(fr *frame, fns []value, maxPreempt int) {
+	if i.path == nil {
+		unsupportedf("vPar in concrete mode")
+	}
+	if i.env.sched != nil {
+		unsupportedf("nested vPar")
+	}
+	s := &scheduler{i: i, mainCh: make(chan struct{}), maxPreempt: maxPreempt,
+		cells: map[interface{}]*cellState{}, raceKeys: map[string]bool{},
+		wvc: map[*lockState]vclock{}, rvc: map[*lockState]vclock{}}
+	n := len(fns)
+	for k, fn := range fns {
+		t := &thread{id: k + 1, fn: fn, resume: make(chan bool), vc: make(vclock, n+2)}
+		t.vc[t.id] = 1
+		s.threads = append(s.threads, t)
+	}
+	// thread ids index s.threads by id-1: keep a 0 slot for convenience
+	s.threads = append([]*thread{{id: 0, done: true, vc: make(vclock, n+2)}}, s.threads...)
+	i.env.sched = s
+	prevThread := i.env.curThread
+	for _, t := range s.threads[1:] {
+		t := t
+		s.wg.Add(1)
+		go func() {
+			defer s.wg.Done()
+			if ok := <-t.resume; !ok {
+				return
+			}
+			defer func() {
+				if r := recover(); r != nil {
+					if _, ok := r.(stopSpawn); ok {
+						return
+					}
+					if s.abort == nil {
+						s.abort = r
+					}
+					t.done = true
+					s.mainCh <- struct{}{}
+					return
+				}
+			}()
+			t.started = true
+			call(i, nil, token.NoPos, t.fn, nil)
+			t.done = true
+			// thread exit: pick who runs next
+			var c []*thread
+			for _, o := range s.threads {
+				if s.runnable(o) {
+					c = append(c, o)
+				}
+			}
+			if len(c) == 0 {
+				alive := false
+				for _, o := range s.threads {
+					if !o.done {
+						alive = true
+					}
+				}
+				if alive {
+					s.deadlock = s.describeBlocked()
+					panic(pathEnd{"deadlock", s.deadlock})
+				}
+				s.mainCh <- struct{}{}
+				return
+			}
+			pick := 0
+			if len(c) > 1 {
+				pick = i.path.choose(len(c), "sched")
+			}
+			s.transfer(t, c[pick], false)
+		}()
+	}
+	// who starts
+	first := 0
+	if n > 1 {
+		first = i.path.choose(n, "sched")
+	}
+	s.cur = first + 1
+	i.env.curThread = first + 1
+	s.threads[first+1].resume <- true
+	<-s.mainCh
+	// stop whatever is still parked and wait until every thread goroutine is gone
+	for _, t := range s.threads[1:] {
+		if !t.done {
+			go func(t *thread) {
+				defer func() { recover() }()
+				t.resume <- false
+			}(t)
+		}
+	}
+	waitDone := make(chan struct{})
+	go func() { s.wg.Wait(); close(waitDone) }()
+	<-waitDone
+	i.env.sched = nil
+	i.env.curThread = prevThread
+	i.env.lastSched = s
+	if s.abort != nil {
+		panic(s.abort)
+	}
+}
+
+var _ = ssa.BuilderMode(0)
+
+func init() {
+	par := func(i *interpreter, fr *frame, args []value) value {
+		mp := 2
+		if v, ok := i.bounds["PREEMPT"]; ok {
+			mp = v
+		}
+		i.runPar(fr, args, mp)
+		return nil
+	}
+	reg(hp+"vPar", par)
+	reg(hp+"vPar3", par)
+	// vRaceCheck(label): no unordered conflicting accesses were executed by the last vPar
+	reg(hp+"vRaceCheck", func(i *interpreter, fr *frame, args []value) value {
+		label := strArg(args[0])
+		s := i.env.lastSched
+		if s == nil || i.path == nil {
+			return nil
+		}
+		if len(s.races) == 0 {
+			i.path.checkAssert(label, mkBool(true))
+			return nil
+		}
+		for _, r := range s.races {
+			p := i.path
+			p.labels[label] = true
+			p.obl++
+			if p.solver.Check() != Sat {
+				continue
+			}
+			pair := []string{fnOnly(r.a), fnOnly(r.b)}
+			sort.Strings(pair)
+			v := p.buildViolation(label, "race", fmt.Sprintf("%s %s ~ %s %s", r.kindA, r.a, r.kindB, r.b))
+			v.Key += "|" + shortFn(pair[0]) + "~" + shortFn(pair[1])
+			p.ex.addViolation(v)
+		}
+		return nil
+	})
+	reg(hp+"vSchedSwitches", func(i *interpreter, fr *frame, args []value) value {
+		if i.env.lastSched == nil {
+			return 0
+		}
+		return i.env.lastSched.switches
+	})
+}
+
+func shortFn(f string) string {
+	f = strings.ReplaceAll(f, SodPath+".", "")
+	f = strings.ReplaceAll(f, "(*", "")
+	f = strings.ReplaceAll(f, ")", "")
+	return f
+}
